@@ -702,6 +702,10 @@ func (e *env) exchange(tc tcase, size int, rng *rand.Rand) outcome {
 		o.drift = fmt.Sprintf("Content-Type %q became %q", ct, got)
 	}
 
+	// DocumentOnlyAppendedTo on the bytes: nothing of the document may be missing
+	if len(decoded) < len(plain) {
+		return bad("DocumentOnlyAppendedTo", fmt.Sprintf("the received document has %d bytes, the original has %d: %d bytes are missing (cut off?)", len(decoded), len(plain), len(plain)-len(decoded)))
+	}
 	// HtmlGetsExactlyOneScript: decoded DOM = original DOM + one reload script as last child of the first body
 	orig, err := html.Parse(bytes.NewReader(plain))
 	if err != nil {
@@ -1000,6 +1004,32 @@ func cases(args []string) {
 		if bigAt[i] {
 			jobs = append(jobs, job{i, 3<<20 + rng.Intn(4096)})
 		}
+	}
+	// multi-megabyte pages around powers of two (buffer / limit sizes): every supported encoding, one rewritten
+	// configuration each in quick, several documents in thorough; the document is compared in full
+	hugeSizes := []int{1<<22 - 1, 1<<22 + 1, 1<<23 + 1}
+	hugeDocs := []string{"full"}
+	if thorough {
+		hugeSizes = []int{1<<20 + 1, 1<<21 + 1, 1<<22 - 1, 1 << 22, 1<<22 + 1, 1<<23 - 1, 1<<23 + 1, 1<<24 + 1}
+		hugeDocs = []string{"full", "nonascii", "scripts"}
+	}
+	nhuge := 0
+	for i, tc := range tcs {
+		c := tc.Cfg
+		if c.Method != "GET" || tc.MustPass || c.Ct != "html" || c.Csp != "none" || c.Accept != "browser" || c.Enc == "unsupported" {
+			continue
+		}
+		for _, d := range hugeDocs {
+			if c.Body == d {
+				for _, sz := range hugeSizes {
+					jobs = append(jobs, job{i, sz})
+					nhuge++
+				}
+			}
+		}
+	}
+	if nhuge < 3*len(hugeSizes) {
+		vhlib.Fatal("multi-megabyte family: only %d exchanges planned", nhuge)
 	}
 	var (
 		mu        sync.Mutex
